@@ -178,7 +178,7 @@ impl Engine for StackEngine {
     }
 
     /// Vec-based bounded stack — the property's reference model.
-    fn run_spec(&self, ops: &[String]) -> Option<Vec<String>> {
+    fn run_spec(&self, ops: &[String], _impl_out: &[String]) -> Option<Vec<String>> {
         let mut cap = 0usize;
         let mut v: Vec<String> = vec![];
         let mut undefined = false; // after clear_until above the height: outside the property
@@ -411,7 +411,7 @@ impl Engine for BStackEngine {
         }
     }
 
-    fn run_spec(&self, ops: &[String]) -> Option<Vec<String>> {
+    fn run_spec(&self, ops: &[String], _impl_out: &[String]) -> Option<Vec<String>> {
         let mut cap = 0usize;
         let mut v: Vec<u64> = vec![];
         let mut dropped: Vec<u64> = vec![];
